@@ -489,10 +489,15 @@ class ProcResult(object):
         return out
 
 
-class World(object):
+class SimWorld(object):
     """One simulated host: a filesystem, a log, and the ability to run tool processes on it."""
 
+    instances = None      # set to a list by the fidelity self-test to collect the worlds a run creates
+
     def __init__(self):
+        if SimWorld.instances is not None:
+            SimWorld.instances.append(self)
+        self.transcript = []
         self.log = EventLog()
         self.fs = SimFS(self.log)
         self.mods = load_repo()
@@ -563,6 +568,7 @@ class World(object):
         self.log.add("STDOUT", sha(res.stdout.encode()), res.stdout.split("\n", 1)[0][:80])
         self.log.add("EXIT", res.status, res.exception[0] if res.exception else None)
         res.events = self.log.since(mark)
+        self.transcript.append((cli, [str(a) for a in argv], res.status, res.stdout, res.exception[0] if res.exception else None))
         return res
 
     # -- peer / harness access to the host filesystem (logged as PEER events) ----------------
@@ -577,6 +583,132 @@ class World(object):
         if key in self.fs.files:
             del self.fs.files[key]
             self.log.add(who, "delete", key)
+
+
+# ---------------------------------------------------------------------------------------------
+# the real thing, for stub-fidelity checks only (selftest --fidelity): same interface, real
+# subprocesses in a real temporary directory outside /repo and /verif
+# ---------------------------------------------------------------------------------------------
+
+class _RealFS(object):
+    def __init__(self, root):
+        self.root = root
+        self.faults = {}
+        self.faults_fired = {}
+
+    @property
+    def files(self):
+        out = {}
+        for d, _, names in os.walk(self.root):
+            for n in names:
+                full = os.path.join(d, n)
+                with open(full, "rb") as f:
+                    out[os.path.relpath(full, self.root)] = f.read()
+        return out
+
+
+class _NoClock(object):
+    steps = 0
+
+
+class RealWorld(object):
+    instances = []
+
+    def __init__(self):
+        import tempfile
+        self.root = tempfile.mkdtemp(prefix="cocosim-real-")
+        self.fs = _RealFS(self.root)
+        self.log = EventLog()
+        self.mods = load_repo()
+        self.clock = _NoClock()
+        self.transcript = []
+        self.invocations = 0
+        RealWorld.instances.append(self)
+
+    def close(self):
+        import shutil
+        shutil.rmtree(self.root, ignore_errors=True)
+
+    def _path(self, key):
+        return os.path.join(self.root, key)
+
+    def put(self, key, data, who="PEER"):
+        os.makedirs(os.path.dirname(self._path(key)) or self.root, exist_ok=True)
+        with open(self._path(key), "wb") as f:
+            f.write(bytes(data))
+
+    def get(self, key):
+        try:
+            with open(self._path(key), "rb") as f:
+                return f.read()
+        except (FileNotFoundError, IsADirectoryError):
+            return None
+
+    def delete(self, key, who="PEER"):
+        try:
+            os.remove(self._path(key))
+        except FileNotFoundError:
+            pass
+
+    def _snapshot(self):
+        snap = {}
+        for d, _, names in os.walk(self.root):
+            for n in names:
+                full = os.path.join(d, n)
+                st = os.stat(full)
+                with open(full, "rb") as f:
+                    snap[os.path.relpath(full, self.root)] = (st.st_mtime_ns, st.st_ino, f.read())
+        return snap
+
+    def call(self, fn, *args, budget=None, **kw):
+        old = os.getcwd()
+        os.chdir(self.root)
+        try:
+            return fn(*args, **kw), None
+        except Exception as e:
+            return None, e
+        finally:
+            os.chdir(old)
+
+    def invoke(self, cli, argv, budget=None):
+        import subprocess
+        res = ProcResult()
+        before = self._snapshot()
+        env = dict(os.environ)
+        env.update({"PYTHONHASHSEED": "0", "PYTHONDONTWRITEBYTECODE": "1"})
+        p = subprocess.run([sys.executable, os.path.join(self.mods["__repo__"], cli + ".py")] + [str(a) for a in argv],
+                           cwd=self.root, env=env, stdout=subprocess.PIPE, stderr=subprocess.PIPE, text=True, timeout=600)
+        res.status = p.returncode
+        res.stdout, res.stderr = p.stdout, p.stderr
+        if p.returncode == 1 and "Traceback (most recent call last)" in p.stderr:
+            last = p.stderr.strip().splitlines()[-1]
+            res.exception = (last.split(":")[0].split(".")[-1], last[:200])
+        after = self._snapshot()
+        events = [(0, "INVOKE", cli, list(argv))]
+        for key in sorted(set(before) | set(after)):
+            if key not in after:
+                events.append((0, "REMOVE", key, len(before[key][2])))
+            elif key not in before:
+                events.append((0, "CREATE", key))
+                events.append((0, "WRITE", key, len(after[key][2]), sha(after[key][2])))
+            elif before[key] != after[key]:
+                events.append((0, "TRUNCATE", key, len(before[key][2])))
+                events.append((0, "WRITE", key, len(after[key][2]), sha(after[key][2])))
+        res.events = events
+        self.transcript.append((cli, [str(a) for a in argv], res.status, res.stdout, res.exception[0] if res.exception else None))
+        return res
+
+
+_REAL = [False]
+
+
+def use_real_world(flag):
+    _REAL[0] = bool(flag)
+
+
+def World():
+    """Factory used by every engine: the simulated host, or (fidelity self-test only) the real one."""
+    return RealWorld() if _REAL[0] else SimWorld()
 
 
 def scratch_cwd_guard():
